@@ -18,7 +18,7 @@ from .. import gen_messages, message_rec, sockdouble
 from ..common import digest, rng
 from ..decode_rec import frame_of
 
-FINISH = dict(level="model_checking", rule="cases = operations judged by TLC (strshape, get_bit, len2bytes) + harness-level format checks; distinct by payload digest")
+FINISH = dict(level="model_checking", rule="cases = operations judged by TLC (strshape, get_bit, len2bytes, tow2utc) + harness-level format checks; distinct by payload digest")
 
 
 def run(tier, rep):
@@ -33,7 +33,7 @@ def run(tier, rep):
     for ident, pl in cases:
         rid, r, msg = corp.add(pl, 1, keep_msg=True, lbl=False, ident=ident)
         if msg is not None:
-            r["ops"] = [message_rec.do_op(msg, op, fields) for op in ("strshape", "get_bit", "len2bytes")]
+            r["ops"] = [message_rec.do_op(msg, op, fields) for op in ("strshape", "get_bit", "len2bytes", "tow2utc")]
     dv = corp.judge()
     for r in corp.recs:
         v = dv[r["rid"]]
